@@ -573,7 +573,9 @@ def mk_real_pt(f, s, p, q, kind=None, unit=None):
     return pt
 
 UNITS = [('degrees', Fraction(1, 180)), ('deg', Fraction(1, 180)), ('arcmin', Fraction(1, 180 * 60)), ('arcsec', Fraction(1, 180 * 3600)),
-         ('gradians', Fraction(1, 200)), ('turns', Fraction(2)), ('rightangles', Fraction(1, 2)), ('circle', Fraction(2))]
+         ('gradians', Fraction(1, 200)), ('turns', Fraction(2)), ('rightangles', Fraction(1, 2)), ('circle', Fraction(2)),
+         ('quadrants', Fraction(1, 2)), ('quintants', Fraction(2, 5)), ('sextants', Fraction(1, 3)), ('zodiac_signs', Fraction(1, 6)),
+         ('revs', Fraction(2)), ('gons', Fraction(1, 200))]
 
 def gen_points(c):
     r = c.rng
